@@ -145,6 +145,8 @@ def _validated_loop(ctx, fn, L, frm, to):
     # every back edge must be dominated (inside the loop) by the true edge of the query
     outside = frozenset(x for x in range(fn.nb) if x not in body)
     for (src, dst) in L['back_edges']:
+        if (src, dst) in te:
+            continue            # the accepting edge of the query is itself the way back to the loop head
         r = fn.reachable(L['header'], removed=frozenset(te), stop=outside)
         if not te or src in r:
             info['problems'].append('an iteration can continue without the interpolated state having been accepted')
@@ -160,8 +162,17 @@ def _validated_loop(ctx, fn, L, frm, to):
             idx_terms = T(n)
             it_terms = next(iter(n[1]))[2][0]
     if idx_terms is None:
-        info['problems'].append('the interpolation parameter does not depend on the loop index')
-        return info
+        # hand-written counter:  i = K0; while i < n { i += 1; t = i / n; .. }   or   while i <= n { t = i / n; ..; i += 1 }
+        cnt = _counter_idiom(fn, L, a_t)
+        if cnt is None:
+            info['problems'].append('the interpolation parameter does not depend on the loop index')
+            return info
+        den, okc, whyc, k0 = cnt
+        info['N'] = den
+        info['lo'] = T(('const', str(k0)))
+        if not okc:
+            info['problems'].append(whyc)
+        return _entered_nonzero(fn, L, den, info)
     rng = _range_of(it_terms)
     if rng is None:
         info['problems'].append('loop does not iterate over a literal integer range (%s)' % fmt_terms(it_terms)[:60])
@@ -188,6 +199,118 @@ def _validated_loop(ctx, fn, L, frm, to):
     if not ok:
         info['problems'].append('the last iteration does not evaluate t = 1 (range %s..%s%s, t = %s)' % (
             fmt_terms(lo)[:20], '=' if inclusive else '', fmt_terms(hi)[:40], fmt_terms(a_t)[:60]))
+    return _entered_nonzero(fn, L, den, info)
+
+
+def _single_def(fn, local):
+    evs = [e for e in fn.events(local) if not e.path]
+    return evs[0] if len(evs) == 1 else None
+
+
+def _root_local(fn, op):
+    """follow single-definition copies / int->float casts of an operand back to a user variable local"""
+    pl = op.get('move') or op.get('copy')
+    for _ in range(6):
+        if pl is None or pl['p']:
+            return None
+        e = _single_def(fn, pl['l'])
+        if e is None or e.kind != 'assign' or e.data['k'] != 'assign':
+            return pl['l']
+        rv = e.data['rv']
+        if rv['k'] == 'use' or (rv['k'] == 'cast' and 'IntToFloat' in rv.get('cast', '')):
+            nxt = rv['op'].get('move') or rv['op'].get('copy')
+            if nxt is None:
+                return pl['l']
+            pl = nxt
+            continue
+        return pl['l']
+    return pl['l'] if pl is not None and not pl['p'] else None
+
+
+def _counter_idiom(fn, L, a_t):
+    """returns (den terms, ok, why, K0) when the interpolation parameter is counter / n for a counter that starts at a
+    constant, is incremented by one exactly once per iteration and is tested against n at the loop head"""
+    body = L['body']
+    # the quotient
+    div = None
+    for b in sorted(body):
+        for si, st in enumerate(fn.blocks[b]['stmts']):
+            if st['k'] == 'assign' and st['rv']['k'] == 'binop' and st['rv']['op'] == 'Div' and fn.rvalue_terms(st['rv'], (b, si)) == a_t:
+                div = (b, si, st)
+    if div is None:
+        return None
+    db, dsi, dst = div
+    c = _root_local(fn, dst['rv']['a'])
+    n = _root_local(fn, dst['rv']['b'])
+    if c is None or n is None or c == n:
+        return None
+    # definitions of the counter: one constant outside the loop, one `c = c + 1` inside
+    evs = [e for e in fn.events(c) if not e.path]
+    outside = [e for e in evs if e.block not in body]
+    inside = [e for e in evs if e.block in body]
+    if len(outside) != 1 or len(inside) != 1 or outside[0].kind != 'assign' or inside[0].kind != 'assign':
+        return None
+    rv0 = outside[0].data['rv']
+    if rv0['k'] != 'use' or 'const' not in rv0['op'] or 'ival' not in rv0['op']['const']:
+        return None
+    k0 = int(rv0['op']['const']['ival'])
+    inc = inside[0]
+    rvi = inc.data['rv']
+    plus_one = False
+    if rvi['k'] == 'binop' and rvi['op'] in ('Add', 'AddUnchecked'):
+        plus_one = _root_local(fn, rvi['a']) == c and rvi['b'].get('const', {}).get('ival') == '1'
+    elif rvi['k'] == 'use':
+        src = rvi['op'].get('move') or rvi['op'].get('copy')
+        if src is not None and len(src['p']) == 1 and isinstance(src['p'][0], dict) and src['p'][0].get('f') == 0:
+            e2 = _single_def(fn, src['l'])
+            if e2 is not None and e2.kind == 'assign' and e2.data['rv']['k'] == 'binop' and e2.data['rv']['op'] == 'AddWithOverflow':
+                r2 = e2.data['rv']
+                pa = r2['a'].get('move') or r2['a'].get('copy')
+                plus_one = pa is not None and not pa['p'] and pa['l'] == c and r2['b'].get('const', {}).get('ival') == '1'
+    if not plus_one:
+        return None
+    # the increment happens exactly once on every way round the loop
+    outside_b = frozenset(x for x in range(fn.nb) if x not in body)
+    r = fn.reachable(L['header'], stop=outside_b | frozenset([inc.block]))
+    if any(src in r and src != inc.block for (src, _d) in L['back_edges']):
+        return None
+    # the loop test: switch on  c < n  /  c <= n  whose failing edge leaves the loop
+    test = None
+    for b in sorted(body):
+        t = fn.blocks[b]['term']
+        if t['k'] != 'switch':
+            continue
+        for si, st in enumerate(fn.blocks[b]['stmts']):
+            if st['k'] == 'assign' and st['rv']['k'] == 'binop' and st['rv']['op'] in ('Lt', 'Le', 'Gt', 'Ge'):
+                a_, b_ = _root_local(fn, st['rv']['a']), _root_local(fn, st['rv']['b'])
+                op = st['rv']['op']
+                if (a_, b_) == (n, c):
+                    a_, b_, op = c, n, {'Lt': 'Gt', 'Le': 'Ge', 'Gt': 'Lt', 'Ge': 'Le'}[op]
+                if (a_, b_) == (c, n) and op in ('Lt', 'Le'):
+                    tm = {str(v): tg for v, tg in t['targets']}
+                    f_t = tm.get('0')
+                    if f_t is not None and f_t not in body and (b, si) < (inc.block, inc.idx) or (b != inc.block and b in fn.dominators().get(inc.block, ())):
+                        test = (op, b)
+    if test is None:
+        return None
+    dom = fn.dominators()
+    use_after_inc = (inc.block == db and inc.idx < dsi) or (inc.block != db and inc.block in dom.get(db, ()))
+    den_terms = _strip_casts(fn.op_terms(dst['rv']['b'], (db, dsi)))
+    op = test[0]
+    if use_after_inc and op == 'Lt':
+        ok = k0 == 0
+        why = '' if ok else 'the counter starts at %d: the first interpolation parameter is %d/n, skipping part of the motion' % (k0, k0 + 1)
+    elif not use_after_inc and op == 'Le':
+        ok = k0 <= 1
+        why = '' if ok else 'the counter starts at %d: the beginning of the motion is skipped' % k0
+    else:
+        ok = False
+        why = 'the last iteration does not evaluate t = 1 (counter tested with %s and used %s its increment)' % (
+            '<' if op == 'Lt' else '<=', 'after' if use_after_inc else 'before')
+    return den_terms, ok, why, k0
+
+
+def _entered_nonzero(fn, L, den, info):
     # the loop is entered with n >= 1
     facts = cmp_facts(fn, L['header'])
     n_ok = False
@@ -201,6 +324,27 @@ def _validated_loop(ctx, fn, L, frm, to):
                 if k is not None and ((r <= {'gt'} and k >= 0) or (r <= {'gt', 'eq'} and k >= 1)):
                     n_ok = True
                     info['K'] = k if r <= {'gt'} else k - 1
+    if not n_ok:
+        # `match n { 0 | 1 => direct, _ => loop }`: the loop lies behind the default edge of a switch on n whose listed
+        # values are 0..=K
+        for sb in range(fn.nb):
+            if fn.blocks[sb]['cleanup'] or fn.blocks[sb]['term']['k'] != 'switch':
+                continue
+            si = fn.switch_info(sb)
+            if si is None:
+                continue
+            terms, tmap, other = si
+            if strip_clone(_strip_casts(terms)) != strip_clone(den) or not _unsigned(den):
+                continue
+            try:
+                keys = sorted(int(k) for k in tmap)
+            except ValueError:
+                continue
+            if keys != list(range(0, len(keys))) or other in tmap.values():
+                continue
+            if L['header'] not in fn.reachable(0, removed=frozenset([(sb, other)])):
+                n_ok = True
+                info['K'] = keys[-1]
     if not n_ok:
         info['problems'].append('the loop can be entered with zero steps (no dominating test n > K): the checker would answer true without any query')
     return info
